@@ -106,6 +106,11 @@ func genTimeoutString(t *core.Tape, grpc bool, notes map[string]int) (string, st
 		return digits(t, 1+t.Choose(7, "n"), false) + string("hsUNxd%"[t.Choose(7, "badunit")]), "malformed"
 	case 3: // empty number
 		notes["ts_empty_number"]++
+		if t.Bool(1, 3, "ts.empty.value") {
+			// the header is there and says nothing: no number (and no unit)
+			notes["ts_empty_value"]++
+			return "", "malformed"
+		}
 		if grpc {
 			return unit, "malformed"
 		}
